@@ -125,8 +125,8 @@ pub enum Domain {
     PositiveGrid,
 }
 
-pub const N_REGIMES: usize = 9;
-pub const REGIME_NAMES: [&str; N_REGIMES] = ["walk", "trend", "alternate", "spikes", "plateaus", "sawtooth", "nearflat", "gridties", "widemag"];
+pub const N_REGIMES: usize = 10;
+pub const REGIME_NAMES: [&str; N_REGIMES] = ["walk", "trend", "alternate", "spikes", "plateaus", "sawtooth", "nearflat", "gridties", "widemag", "tinyzero"];
 
 /// Expand (regime, base, aux, noise) into a value stream. Pure function.
 pub fn expand(domain: Domain, regime: usize, base: f64, aux: f64, noise: &[f64]) -> Vec<f64> {
@@ -168,9 +168,20 @@ pub fn expand(domain: Domain, regime: usize, base: f64, aux: f64, noise: &[f64])
             5 => base * (1.0 + (i % saw_p) as f64 * 0.25),
             6 => base * (1.0 + ((u * 8.0).floor() - 3.0) * 2f64.powi(-40)),
             7 => base * (1.0 + (u * 16.0).floor()) / 16.0,
-            _ => {
+            8 => {
                 let e = -6.0 + 18.0 * u;
                 10f64.powf(e)
+            }
+            _ => {
+                // signed zeros, subnormals and the smallest normals between ordinary values (the first
+                // value is ordinary so that the largest magnitude M is a normal number)
+                const T: [f64; 10] = [0.0, -0.0, 5e-324, -5e-324, 1e-310, -1e-310, f64::MIN_POSITIVE, -f64::MIN_POSITIVE, 1e-300, -3e-290];
+                let j = (u * 16.0) as usize;
+                if i == 0 || j >= 10 {
+                    base * (0.5 + u)
+                } else {
+                    T[j]
+                }
             }
         };
         out.push(v);
@@ -261,7 +272,7 @@ pub struct Stream {
 pub fn stream(domain: Domain, min_len: usize, max_len: usize) -> BoxedStrategy<Stream> {
     (0..N_REGIMES, base_strategy(domain), 0.0f64..1.0, vec(0.0f64..1.0, min_len..=max_len))
         .prop_map(move |(regime, base, aux, noise)| {
-            let regime = if domain != Domain::AnySign && regime == 8 { 0 } else { regime };
+            let regime = if domain != Domain::AnySign && regime >= 8 { regime - 8 } else { regime };
             Stream { regime, vals: expand(domain, regime, base, aux, &noise) }
         })
         .boxed()
@@ -363,7 +374,7 @@ pub fn bar_stream(grid: bool, min_len: usize, max_len: usize) -> BoxedStrategy<B
         vec((0.0f64..1.0, 0.0f64..1.0, 0.0f64..1.0, 0.0f64..1.0, 0.0f64..1.0), 1..=64),
     )
         .prop_map(move |(regime, base, aux, noise, shape)| {
-            let regime = if regime == 8 { 0 } else { regime };
+            let regime = if regime >= 8 { regime - 8 } else { regime };
             let vals = expand(dom, regime, base, aux, &noise);
             let g = if grid { Some(grid_step(base)) } else { None };
             BarStream { regime, bars: bars_from(&vals, &shape, g) }
